@@ -79,6 +79,29 @@ def call(bezier, strategy, route, arr1, arr2):
     return "ok", np.asarray(out)
 
 
+def flat_pairs(rnd, count):
+    """an exact line against a curve that is almost, but not exactly, straight (linearisation error far below the
+    2^-26 threshold but non-zero), in both argument orders, at unit size and at tiny size: shortcuts that treat
+    'nearly linear' as 'linear' show up as residuals above the Newton-exit bound"""
+    out = []
+    for i in range(count):
+        deg = rnd.choice([2, 2, 3, 4])
+        bulge = Fr(rnd.randint(1, 7), 8) * Fr(2) ** rnd.randint(-44, -28)
+        scale = Fr(2) ** rnd.choice([0, 0, 0, -8, -26, -30])
+        xs = [Fr(j, deg) for j in range(deg + 1)]
+        ys = [Fr(0)] + [bulge * rnd.choice([1, 2, 3]) for _ in range(deg - 1)] + [Fr(0)]
+        curve = [[x * scale for x in xs], [y * scale for y in ys]]
+        x0 = Fr(rnd.randint(3, 13), 16)
+        slope = Fr(rnd.randint(-3, 3), 4)
+        line = [[(x0 - slope) * scale, (x0 + slope) * scale], [-scale, scale]]
+        if not (Z.net_is_f64(curve) and Z.net_is_f64(line)):
+            continue
+        a, b = (line, curve) if i % 2 == 0 else (curve, line)
+        out.append({"kind": "flat", "tag": "line x nearly straight degree-%d curve, bulge 2^%d, scale %s" %
+                    (deg, bulge.denominator.bit_length() * -1 + bulge.numerator.bit_length(), scale), "n1": a, "n2": b, "planted": None})
+    return out
+
+
 def main():
     warnings.simplefilter("ignore")
     np.seterr(all="ignore")
@@ -94,7 +117,7 @@ def main():
     if rep:
         work = [(Z.unjpair(rep["pair"]), rep["strategy"], rep["route"])]
     else:
-        pairs = Z.all_pairs(rnd, tier) + Z.zoo_pairs(rnd, full=thorough)
+        pairs = Z.all_pairs(rnd, tier) + Z.zoo_pairs(rnd, full=thorough) + flat_pairs(rnd, 60 if not thorough else 400)
         if os.environ.get("VERIF_SEARCH"):
             pairs = Z.all_pairs(rnd, tier)
         work = []
@@ -136,7 +159,8 @@ def main():
         transversal = iso.status == "certified" and all(r.sin2_lo >= SIN2_MIN for r in iso.roots)
         # key computed from the INPUT: pairs that are not certified all-simple-transversal (tangency, overlap)
         # get their own key (the Gauss-Newton exit of the geometric strategy is only ever taken there)
-        fkey = "residual-too-large:" + strategy + ("" if transversal else ":tangential-input")
+        fkey = "residual-too-large:" + strategy + ("" if transversal else
+                                                    (":overlapping-arcs" if p["kind"] == "overlap" else ":tangential-input"))
         if strategy == "geometric" and transversal:
             tight = 2 * (lipschitz(n1) + lipschitz(n2)) * newton * Fr(3, 2) + 64 * (d1 + d2 + 2) * C.U * size
         for c in range(ncol):
